@@ -33,6 +33,20 @@ func filterClosures(p *Program) []*ssa.Function {
 			}
 			seenF[f] = true
 			cands = append(cands, f.AnonFuncs...)
+			// a method value (x.handle) used as the function: the bound-method wrapper names the method
+			for _, b := range f.Blocks {
+				for _, in := range b.Instrs {
+					if mc, ok := in.(*ssa.MakeClosure); ok {
+						if w, ok := mc.Fn.(*ssa.Function); ok && w.Synthetic != "" && len(w.FreeVars) == 1 {
+							for _, call := range calls(w) {
+								if cal := call.Common().StaticCallee(); cal != nil && cal.Signature.Recv() != nil {
+									cands = append(cands, cal)
+								}
+							}
+						}
+					}
+				}
+			}
 			for _, call := range calls(f) {
 				if cal := call.Common().StaticCallee(); cal != nil && cal.Pkg != nil && m.Pkg != nil && cal.Pkg == m.Pkg && cal.Signature.Recv() == nil {
 					collect(cal, depth+1)
@@ -46,6 +60,21 @@ func filterClosures(p *Program) []*ssa.Function {
 				continue
 			}
 			callsCaptured := false
+			if sig.Recv() != nil {
+				// method: calls a function held in a field of its receiver
+				for _, call := range calls(af) {
+					v := call.Common().Value
+					if l, ok := v.(*ssa.UnOp); ok {
+						v = l.X
+					}
+					if fa, ok := v.(*ssa.FieldAddr); ok && len(af.Params) > 0 && rootParam(fa.X) == af.Params[0] {
+						callsCaptured = true
+					}
+					if fl, ok := v.(*ssa.Field); ok && len(af.Params) > 0 && rootParam(fl.X) == af.Params[0] {
+						callsCaptured = true
+					}
+				}
+			}
 			for _, call := range calls(af) {
 				if l, ok := call.Common().Value.(*ssa.UnOp); ok {
 					if _, isFV := l.X.(*ssa.FreeVar); isFV {
@@ -62,6 +91,25 @@ func filterClosures(p *Program) []*ssa.Function {
 		}
 	}
 	return out
+}
+
+// rootParam: the parameter a chain of loads / field selections starts from (nil if it starts elsewhere).
+func rootParam(v ssa.Value) *ssa.Parameter {
+	for i := 0; i < 8; i++ {
+		switch x := v.(type) {
+		case *ssa.Parameter:
+			return x
+		case *ssa.UnOp:
+			v = x.X
+		case *ssa.FieldAddr:
+			v = x.X
+		case *ssa.Field:
+			v = x.X
+		default:
+			return nil
+		}
+	}
+	return nil
 }
 
 func checkC14(c *Ctx) {
@@ -282,7 +330,55 @@ func checkC14(c *Ctx) {
 							binds = append(binds, v)
 						}
 					}
-					res := ex.callValue(&Frame{fn: fc, regs: map[ssa.Value]Val{}, visits: map[*ssa.BasicBlock]int{}, widened: map[*ssa.BasicBlock]bool{}, phiHist: map[*ssa.Phi]Val{}, kept: map[*ssa.Phi]keptInv{}}, st, &FuncV{Fn: fc, Bindings: binds}, []Val{msg, ms}, nil, nil)
+					callArgs := []Val{msg, ms}
+					if fc.Signature.Recv() != nil {
+						// a method: its receiver carries what a closure would capture — configuration and callback, by type
+						rt := fc.Signature.Recv().Type()
+						isPtr := false
+						if pt, ok := rt.(*types.Pointer); ok {
+							rt, isPtr = pt.Elem(), true
+						}
+						rv, _ := ex.zeroOf(rt).(*StructV)
+						if rv == nil {
+							bad = "receiver of the filter method is not a struct"
+							break
+						}
+						for i := 0; i < rv.T.NumFields(); i++ {
+							ft := rv.T.Field(i).Type()
+							switch {
+							case types.Identical(ft, confT):
+								cv := ex.zeroOf(confT).(*StructV)
+								cv.Fields[fieldIndex(cv.T, "TimeCode")] = &BoolV{Known: true, Val: tc}
+								cv.Fields[fieldIndex(cv.T, "ActiveSense")] = &BoolV{Known: true, Val: as}
+								cv.Fields[fieldIndex(cv.T, "SysEx")] = &BoolV{Known: true, Val: sx}
+								rv.Fields[i] = cv
+							default:
+								if _, isSig := ft.Underlying().(*types.Signature); isSig {
+									rv.Fields[i] = &FuncV{Ext: "onMsg"}
+								} else if b, isB := ft.Underlying().(*types.Basic); isB && b.Kind() == types.Bool {
+									// option flags copied one by one: matched by name against the configuration's fields
+									switch rv.T.Field(i).Name() {
+									case "TimeCode", "timeCode", "timecode":
+										rv.Fields[i] = &BoolV{Known: true, Val: tc}
+									case "ActiveSense", "activeSense", "activesense":
+										rv.Fields[i] = &BoolV{Known: true, Val: as}
+									case "SysEx", "sysEx", "sysex":
+										rv.Fields[i] = &BoolV{Known: true, Val: sx}
+									default:
+										rv.Fields[i] = ex.topArg(st, ft, rv.T.Field(i).Name())
+									}
+								} else {
+									rv.Fields[i] = ex.topArg(st, ft, rv.T.Field(i).Name())
+								}
+							}
+						}
+						var recv Val = rv
+						if isPtr {
+							recv = &PtrV{Obj: ex.newObj(st, rv, rt)}
+						}
+						callArgs = []Val{recv, msg, ms}
+					}
+					res := ex.callValue(&Frame{fn: fc, regs: map[ssa.Value]Val{}, visits: map[*ssa.BasicBlock]int{}, widened: map[*ssa.BasicBlock]bool{}, phiHist: map[*ssa.Phi]Val{}, kept: map[*ssa.Phi]keptInv{}}, st, &FuncV{Fn: fc, Bindings: binds}, callArgs, nil, nil)
 					wantDrop := (b0 == 0xFE && !as) || (b0 == 0xF8 && !tc) || ((b0 == 0xF0 || b0 == 0xF7) && !sx)
 					for _, r := range res {
 						if r.panic {
